@@ -101,15 +101,17 @@ func (e editor) leaf(from *Selection, to *Selection, m meta.Leafable, new bool, 
 			return err
 		}
 		// If there is a different choice selected, need to clear it
-		// first if in upsert mode
+		// first if in upsert mode - but not before the target agrees to take the leaf: a leaf
+		// that its condition hides is not written, and the case that holds data stays
+		var clearOtherCase func() error
 		if strategy == editUpsert {
-			if err := e.clearOnDifferentChoiceCase(to, m); err != nil {
-				return err
+			clearOtherCase = func() error {
+				return e.clearOnDifferentChoiceCase(to, m)
 			}
 		}
 		r.Selection = to
 		r.From = from
-		if err := to.set(&r, &hnd); err != nil {
+		if err := to.setAfter(&r, &hnd, clearOtherCase); err != nil {
 			return err
 		}
 	}
@@ -345,8 +347,13 @@ func (e editor) list(from *Selection, to *Selection, m *meta.List, new bool, str
 		p.Key = key
 		if len(key) > 0 {
 			toRequest.New = false
-			if toChild, _, _, err = to.selectListItem(&toRequest); err != nil {
+			var visible bool
+			if toChild, visible, _, err = to.selectListItem(&toRequest); err != nil {
 				return err
+			}
+			if toChild != nil && !visible {
+				// as for a container that its condition hides: what cannot be read is not written
+				return fmt.Errorf("%w. entry %s of '%s' is not accessible", fc.BadRequestError, EncodeKey(key), to.Path)
 			}
 		}
 		toRequest.New = true
